@@ -4,7 +4,7 @@ import copy
 import hashlib
 
 from simv import boot  # noqa: F401
-from simv.actors import ReqCtx, Runtime, canon, consume_args, cook, forget
+from simv.actors import AppBaseException, ReqCtx, Runtime, canon, consume_args, cook, forget
 from simv.gen.document import gen_document, gen_variables
 from simv.gen.schema import gen_schema
 from simv.model.document import print_document
@@ -151,7 +151,7 @@ def execute_once(engine, text, op_name, variables, plan, choice, scheduler="rand
         out.resp = run_sim(loop, main())
     except (SimDeadlock, SimStepCap) as e:
         out.exc = e
-    except Exception as e:  # noqa: BLE001 -- anything escaping execute is a finding
+    except (Exception, asyncio.CancelledError, AppBaseException) as e:  # noqa: BLE001 -- anything escaping execute is a finding
         out.exc = e
     out.events = loop.events
     out.trace = loop.trace
